@@ -1,6 +1,7 @@
 package dagutils
 
 import (
+	"bytes"
 	"context"
 	"fmt"
 	"path"
@@ -112,6 +113,12 @@ func Diff(ctx context.Context, ds ipld.DAGService, a, b ipld.Node) ([]*Change, e
 	linksB := b.Links()
 
 	if !okA || !okB || (len(linksA) == 0 && len(linksB) == 0) {
+		return []*Change{{Type: Mod, Before: a.Cid(), After: b.Cid()}}, nil
+	}
+
+	// Link changes alone cannot turn a into b when the nodes also differ in
+	// their Data (e.g. a file replaced by a directory): replace the node.
+	if !bytes.Equal(cleanA.Data(), cleanB.Data()) {
 		return []*Change{{Type: Mod, Before: a.Cid(), After: b.Cid()}}, nil
 	}
 
